@@ -440,3 +440,46 @@ func ruleWalk(c *Ctx, r *RuleResult, name string) {
 		}
 	}
 }
+
+// ruleMakeCapAny: make([]T, len, cap) panics when len > cap. Wherever the two are different
+// expressions, len <= cap is proved (a growth policy such as 2*cap(old) is below the new length for
+// the smallest sizes).
+func ruleMakeCapAny(c *Ctx, files func(string) bool) *RuleResult {
+	r := &RuleResult{Rule: "MAKECAP", Doc: "make with a length and a separately computed capacity: length <= capacity is proved", MinInst: 0}
+	for _, fn := range c.Funcs {
+		if fn.Synthetic != "" || fn.Blocks == nil || !files(c.Fset.Position(fn.Pos()).Filename) {
+			continue
+		}
+		var P *Prover
+		for _, b := range fn.Blocks {
+			for _, in := range b.Instrs {
+				mk, ok := in.(*ssa.MakeSlice)
+				if !ok || mk.Len == mk.Cap {
+					continue
+				}
+				if l, isK := constInt(mk.Len); isK && l == 0 {
+					continue
+				}
+				if P == nil {
+					P = NewProver(c, fn)
+					nonNegativeOrder(P, fn)
+				}
+				L, C := P.poly(mk.Len), P.poly(mk.Cap)
+				if L.add(C, -1).key() == "" {
+					continue
+				}
+				src := c.srcAt(mk.Pos())
+				if src == "" {
+					src = valName(mk)
+				}
+				r.inst("%s: %s", c.short(fn), src)
+				ok2 := P.Prove(L.add(C, -1), b)
+				r.oblig(ok2)
+				if !ok2 {
+					r.find(c.short(fn)+":"+src+" length above capacity", c.instrPos(mk), "%s: %s: the length %s is not proved to be at most the capacity %s: make panics for the sizes where it is not", c.short(fn), src, P.showTerm(L), P.showTerm(C))
+				}
+			}
+		}
+	}
+	return r
+}
